@@ -347,6 +347,23 @@ package bcl
 //@ func boolOr
 //@   implements parseRule.infix
 //@   assert right_operand_at_or: at parsePrecedence#1: $prec == precOr
+// literals denote the value of their text (C01, C20: nothing but the escapes of a string literal is interpreted)
+//@ group C01,C20
+//@ func intLit
+//@   implements parseRule.prefix
+//@   assert literal_text_is_parsed: at ParseInt#1: $s == p.prev.val && $base == 0
+//@   assert zero_is_zero: at emitOp#1: sparseint(p.prev.val) == 0 && $op == opZERO
+//@   assert one_is_one: at emitOp#2: sparseint(p.prev.val) == 1 && $op == opONE
+//@   assert int_constant_is_the_literal_value: at emitConst.makeConst#1: $v == VInt(int(sparseint(p.prev.val)))
+//@ func floatLit
+//@   implements parseRule.prefix
+//@   assert literal_text_is_parsed: at ParseFloat#1: $s == p.prev.val && $bitSize == 64
+//@   assert float_constant_is_the_literal_value: at emitConst.makeConst#1: is_float($v) && same(as_float($v), sparsefloat(p.prev.val))
+//@ func stringLit
+//@   implements parseRule.prefix
+//@   assert literal_text_is_unquoted: at Unquote#1: $s == p.prev.val
+//@   assert string_constant_is_the_unquoted_literal: at emitConst.makeConst#1: $v == VStr(sunquote(p.prev.val))
+//@ group C01
 //@ func boolNot
 //@   implements parseRule.prefix
 //@   assert operand_at_not: at parsePrecedence#1: $prec == precNot
@@ -369,6 +386,8 @@ package bcl
 //@   ensures [C17] toplevel_recovered: p.scope.depth == 0 ==> (!p.panicMode || p.current.typ == tFAIL)
 //
 //@ func blockStmt
+//@   assert [C03] block_name_is_the_unquoted_literal: at Unquote#1: $s == p.prev.val && p.prev.typ == tSTR
+//@   assert [C03] block_name_constant_is_that_value: at makeConst#1: p.hadError || blockName == "" || blockName == g.unq_out
 //@   requires statement_boundary: g.uninit == 0 && (p.hadError || (g.pend == F0() && g.sd == p.scope.localCount))
 //@   ensures statement_boundary: g.uninit == 0 && (p.hadError || (g.pend == F0() && g.sd == p.scope.localCount))
 //@   ensures balanced: p.scope.depth == old(p.scope.depth) && (p.hadError || (g.bd == old(g.bd) && g.njopen == old(g.njopen)))
